@@ -107,8 +107,8 @@ class V1Parser:
         if proxyStr != cls.PROXYSTR:
             raise InvalidProxyHeader()
 
-        with convertError(ValueError, InvalidNetworkProtocol):
-            networkProtocol, line = line.split(b" ", 1)
+        # "PROXY UNKNOWN" may be followed directly by CRLF.
+        networkProtocol, _, line = line.partition(b" ")
 
         if networkProtocol not in cls.ALLOWED_NET_PROTOS:
             raise InvalidNetworkProtocol()
